@@ -24,6 +24,7 @@ import (
 	"github.com/dominant-strategies/go-quai/core/rawdb"
 	"github.com/dominant-strategies/go-quai/core/types"
 	"github.com/dominant-strategies/go-quai/ethdb"
+	"github.com/dominant-strategies/go-quai/params"
 	"google.golang.org/protobuf/proto"
 )
 
@@ -226,6 +227,9 @@ func imageDiff(a, b map[string]string) []string {
 			}
 			fmt.Fprintln(os.Stderr, "auwh", h.Hex([]byte(k[4:])), "\n  have", dec(a[k]), "\n  want", dec(b[k]))
 		}
+		if !strings.HasPrefix(k, "auwh") && os.Getenv("QVH_DEBUG") != "" {
+			fmt.Fprintf(os.Stderr, "DIFF %s %x\n  have %x\n  want %x\n", keyClass(k), k, a[k], b[k])
+		}
 		if strings.HasPrefix(k, "@") {
 			out = append(out, k)
 		} else {
@@ -309,6 +313,7 @@ func runC10(seed uint64, n int, outDir string, replay string) {
 		o.Op("newcase")
 		ans("ok")
 		rg := cwRegime{preTx: rc.Chance(10)}
+
 		cwSetParams(rg)
 		func() {
 			defer func() {
@@ -323,6 +328,7 @@ func runC10(seed uint64, n int, outDir string, replay string) {
 				panic(err)
 			}
 			defer safeStop(wx.node)
+			wx.busy = c%2 == 1                // many region blocks, each delivering several coinbases for one lockup record
 			wx.hunt = rc.Chance(30) || c == 0 // case 0 replays the known finding: a spent-and-trimmed output on a rolled-back block
 			X := wx.node
 			digestAns := func(wf string) string {
@@ -365,7 +371,16 @@ func runC10(seed uint64, n int, outDir string, replay string) {
 			}
 			// 1. common prefix on X
 			var prefix, A, B []*c10Block
-			for i, p := 0, 8+rc.Intn(10); i < p; i++ {
+			plen := 8 + rc.Intn(10)
+			if wx.busy {
+				// directed: the last prefix block and the second block of branch A both process a burst of coinbases
+				// for one lockup record, within one epoch: A rewrites, more than once, a record that exists at the fork
+				plen = 2*int(params.CoinbaseEpochBlocks) + rc.Intn(int(params.CoinbaseEpochBlocks)-2)
+			}
+			for i, p := 0, plen; i < p; i++ {
+				if wx.busy && i == p-2 {
+					wx.forceRegion = 1
+				}
 				b, err := buildOn(wx, false)
 				if err != nil {
 					o.Violate("c07-own-block-rejected", fmt.Sprintf("prefix block %d: %v", i+1, err))
@@ -391,8 +406,13 @@ func runC10(seed uint64, n int, outDir string, replay string) {
 			// 3. branch A on X, branch B on Y
 			wx.qiBoost = rc.Intn(4)
 			hit := false
-			for i, a := 0, 1+rc.Intn(5); i < a || (c == 0 && !hit && i < 16); i++ {
-				b, err := buildOn(wx, rc.Chance(60) && c != 0)
+			atFork := lockupValues(X.db)
+			alen := 1 + rc.Intn(5)
+			if wx.busy {
+				alen, wx.forceRegion = max(alen, 2), 1
+			}
+			for i, a := 0, alen; i < a || (c == 0 && !hit && i < 16); i++ {
+				b, err := buildOn(wx, rc.Chance(60) && c != 0 && !(wx.busy && i < 2))
 				if err != nil {
 					o.Violate("c07-own-block-rejected", fmt.Sprintf("branch A block %d: %v", i+1, err))
 					return
@@ -400,6 +420,35 @@ func runC10(seed uint64, n int, outDir string, replay string) {
 				A = append(A, b)
 				emit(b, true)
 				hit = hit || len(doubleRemovals(X.db, b.st.blk)) > 0
+				if dcl, err := rawdb.ReadDeletedCoinbaseLockups(X.db, b.st.blk.Hash()); err == nil {
+					per := map[string]int{}
+					for _, d := range dcl {
+						per[string(d.Key)]++
+					}
+					ck, _ := rawdb.ReadCreatedCoinbaseLockupKeys(X.db, b.st.blk.Hash())
+					for _, k := range ck {
+						delete(per, string(k)) // created by this block: the rollback deletes it whatever was restored
+					}
+					for kk := range per {
+						if _, ok := atFork[kk]; !ok {
+							delete(per, kk) // created on the abandoned branch: the rollback of that block deletes it
+						}
+					}
+					for kk, k := range per {
+						if k >= 2 && os.Getenv("QVH_DEBUG") != "" {
+							fmt.Fprintf(os.Stderr, "DBG case %d A-block %d key %s x%d\n", c, len(A), short([]byte(kk)), k)
+							for _, d := range dcl {
+								if string(d.Key) == kk {
+									fmt.Fprintf(os.Stderr, "   old %s\n", short(d.Value))
+								}
+							}
+						}
+						if k >= 2 {
+							o.Count("abandoned-block:rewrites-an-existing-lockup-record-more-than-once")
+							break
+						}
+					}
+				}
 			}
 			imageA := chainImage(X, index)
 			for i, bn := 0, 1+rc.Intn(5); i < bn; i++ {
@@ -465,8 +514,13 @@ func runC10(seed uint64, n int, outDir string, replay string) {
 					return
 				}
 				if d := imageDiff(chainImage(X, index), chainImage(Y, index)); len(d) > 0 {
-					o.Violate("c10-reorg-state-differs", fmt.Sprintf("after extension block %d: X differs from the node that only followed B in %v", i+1, d))
-					return
+					if onlyIndexDuplicates(chainImage(X, index), chainImage(Y, index)) {
+						// the duplicate left by the rollback (known finding above) stays in the entry while the chain grows
+						o.Violate("c10-index-duplicate-after-spent-and-trimmed", fmt.Sprintf("after extension block %d: the address index of X still lists an outpoint twice (%v)", i+1, d))
+					} else {
+						o.Violate("c10-reorg-state-differs", fmt.Sprintf("after extension block %d: X differs from the node that only followed B in %v", i+1, d))
+						return
+					}
 				}
 				for _, tx := range b.st.blk.Transactions() {
 					for _, ab := range A {
